@@ -22,6 +22,9 @@ def ob_multi(typ: int, optional: bool, s1: str, s2: str, k1: int, k2: int, nseg:
     g = _group(nseg, s1, s2, k1, k2)
     got = f(g)
     want = [conv(x) for x in ([s1, s2][:nseg])]
+    again = f(g)
+    if again is got:
+        return False          # every match gets its own list (a shared one would leak between requests)
     return isinstance(got, list) and got == want and all(type(a) is conv for a in got)
 
 
@@ -39,7 +42,11 @@ def confirm_multi(typ, optional, s1, s2, k1, k2, nseg):
     path = _group(nseg, s1, s2, k1, k2) or '/'
     got = app.routes[0].match_path(path)
     want = [CONVS[typ](x) for x in ([s1, s2][:nseg])]
-    return got is None or got.get('v') != want
+    if got is None or got.get('v') != want:
+        return True
+    got['v'].append('leftover from an earlier request')
+    again = app.routes[0].match_path(path)
+    return again is None or again.get('v') != want        # every match gets its own list
 
 
 def ob_single(typ: int, optional: bool, s1: str, k1: int, absent: bool) -> bool:
